@@ -57,7 +57,7 @@ Definition judge1_fx (fx : fixes) (c : case) : verdict :=
   | Some s =>
       let sc := scall_of (k_call c) s in
       let m := agree_model_sub fx sc (k_obs c) in
-      let k := scall_class_fx (fx_append fx) (fx_section fx) (fx_envsub fx) sc in
+      let k := scall_class_fx (fx_append fx) (fx_section fx) (fx_envsub fx) (fx_leaf fx) sc in
       (* a finding class of the subcommand level only counts when the faithful model reproduces the
          observation; any other failure on such an input is class 9 (never a listed finding) *)
       {| v_model := m;
@@ -69,8 +69,10 @@ Definition judge1 : case -> verdict := judge1_fx nofix.
 Definition judge (cs : list case) := judge_all judge1 cs.
 
 (* the judges for a tree with the proposed repairs applied (tie/props/c04.py JUDGE) *)
-Definition judge_fixed_append (cs : list case) := judge_all (judge1_fx {| fx_append := true; fx_section := false; fx_envsub := false |}) cs.
-Definition judge_fixed_section (cs : list case) := judge_all (judge1_fx {| fx_append := false; fx_section := true; fx_envsub := false |}) cs.
-Definition judge_fixed (cs : list case) := judge_all (judge1_fx {| fx_append := true; fx_section := true; fx_envsub := false |}) cs.
-Definition judge_fixed_envsub (cs : list case) := judge_all (judge1_fx {| fx_append := false; fx_section := false; fx_envsub := true |}) cs.
-Definition judge_fixed_section_envsub (cs : list case) := judge_all (judge1_fx {| fx_append := false; fx_section := true; fx_envsub := true |}) cs.
+Definition judge_fixed_append (cs : list case) := judge_all (judge1_fx {| fx_append := true; fx_section := false; fx_envsub := false; fx_leaf := false |}) cs.
+Definition judge_fixed_section (cs : list case) := judge_all (judge1_fx {| fx_append := false; fx_section := true; fx_envsub := false; fx_leaf := false |}) cs.
+Definition judge_fixed (cs : list case) := judge_all (judge1_fx {| fx_append := true; fx_section := true; fx_envsub := false; fx_leaf := false |}) cs.
+Definition judge_fixed_envsub (cs : list case) := judge_all (judge1_fx {| fx_append := false; fx_section := false; fx_envsub := true; fx_leaf := false |}) cs.
+Definition judge_fixed_section_envsub (cs : list case) := judge_all (judge1_fx {| fx_append := false; fx_section := true; fx_envsub := true; fx_leaf := false |}) cs.
+Definition judge_fixed_section_envsub_leaf (cs : list case) :=
+  judge_all (judge1_fx {| fx_append := false; fx_section := true; fx_envsub := true; fx_leaf := true |}) cs.
